@@ -46,10 +46,11 @@ def gen_base(rng, tier, index):
         # the workers die in begin() and never read theirs; base 10: the workers are busy in a slow begin() for longer than
         # the pool's internal put timeout
         b9 = index % 40 == 9
-        return {"pool": "functor", "workers": 3, "wq": 0.5, "rq": None, "quota": None, "end_delay": 0,
-                "begin_delay": 0 if b9 else (1.6 if tier == "quick" else rng.choice([1.6, 2.7])),
-                "faults": {"0": ["begin"], "1": ["begin"]} if b9 else None, "side_thread": b9, "ready_first": False,
-                "calls": [] if index % 80 < 40 else [{"ordered": True, "n": 1, "chunk": 1, "form": "list"}]}
+        return {"pool": "functor", "workers": 3, "wq": 0.5, "rq": None, "quota": None, "end_delay": 0, "no_sweep": b9,
+                "begin_delay": 0.6 if b9 else (1.6 if tier == "quick" else rng.choice([1.6, 2.7])),
+                # base 9: every worker dies in begin() (two of them after 0.6 s, i.e. after the pool started to send the orders)
+                "faults": {"0": ["begin"], "1": ["begin"], "2": ["begin"]} if b9 else None, "side_thread": b9, "ready_first": False,
+                "calls": [] if (b9 or index % 80 < 40) else [{"ordered": True, "n": 1, "chunk": 1, "form": "list"}]}
     case = c03.gen_base(rng, tier, index)
     case.pop("join_timeout", None)       # the property speaks about pools without join_timeout
     case.pop("no_sweep", None)
@@ -99,8 +100,8 @@ def gen_base(rng, tier, index):
 def owns(kind, mech, case, result):
     if kind == "lifecycle":
         return True
-    if kind == "deadlock" and mech == "exit-blocked" and not case.get("faults"):
-        return True
+    if kind == "deadlock" and mech == "exit-blocked" and all(f[0] == "begin" for f in (case.get("faults") or {}).values()):
+        return True         # no fault, or workers that died in begin(): leaving the context still ends
     return False
 
 
